@@ -313,7 +313,8 @@ def oracle_shift(case, ctx):
 def invertible_specs():
     return st.one_of(
         st.builds(lambda m, b: {"kind": "boxcox", "method": m, "bounds": b}, st.sampled_from(["mle", "pearsonr"]),
-                  st.sampled_from([None, [-2.0, 2.0], [0.0, 1.0]])),
+                  # (narrow bounds pin the fitted lambda next to the log limit 0, to 1 and to -1)
+                  st.sampled_from([None, [-2.0, 2.0], [0.0, 1.0], [-0.04, 0.04], [0.0, 0.03], [-0.001, 0.0], [0.96, 1.04], [-1.03, -0.97]])),
         st.just({"kind": "log"}),
         st.builds(lambda d: {"kind": "detrend", "degree": d}, st.integers(0, 3)),
         st.builds(lambda sp, m: {"kind": "deseason", "sp": sp, "model": m}, st.integers(1, 8), st.sampled_from(["additive", "multiplicative"])),
